@@ -62,7 +62,7 @@ def ob_key(rec, unit):
 def finding_matches(f, prop, key, rec):
     if f.get('property') != prop:
         return False
-    if f.get('function') and not key.startswith(f['function'] + '|'):
+    if f.get('function') and not (key == f['function'] or key.startswith(f['function'] + '|')):
         return False
     if f.get('clause') and (':' + f['clause'] + '|') not in key and not key.split('|')[1].endswith(':' + f['clause']):
         return False
